@@ -48,7 +48,13 @@ pub fn report_to_result(sc: &Scenario, rep: RunReport, restarted_only: bool) -> 
     r.add("rng_draw_events", s.rng_draws);
     r.add("logger_write_events", s.log_writes);
     r.add("hash_key_draws", s.hash_keys);
-    r.add("fault_unwind_fired", s.unwinds_fired);
+    r.add("fault_unwind_out_of_scalar_arithmetic_fired", s.unwind_at_arith);
+    r.add("fault_unwind_out_of_rng_draw_fired", s.unwind_at_rng);
+    r.add("fault_unwind_out_of_logger_write_fired", s.unwind_at_log);
+    r.add("fault_unwind_out_of_debug_fmt_fired", s.unwind_at_debug_fmt);
+    r.add("fault_restart_from_durable_state_fired", s.restarts);
+    r.add("burst_operations", s.bursts);
+    r.add("burst_calls_checked_against_history_free_sampler", s.burst_calls);
     r.add("restarts", s.restarts);
     r.add("restarts_published", s.restarts_published);
     r.add("probe_restart_while_other_caller_midcall", s.restart_while_other_midcall);
